@@ -2,6 +2,8 @@
 //   <op> <args…>   ->   <op> <args…> => <output>
 // Built from /repo's working tree with -fno-access-control (private static helpers of ftp::client).
 #include "common.hpp"
+#include <locale>
+#include <cstdlib>
 #include <ftp/ftp.hpp>
 #include <ftp/detail/utils.hpp>
 #include <ftp/detail/ascii_istream.hpp>
@@ -217,8 +219,19 @@ std::string run(const std::vector<std::string> & a)
 
 } // namespace
 
+// VERIF_LOCALE=group: the host program has installed a global C++ locale with digit grouping (as en_US / de_DE have);
+// what the library writes on the wire must not depend on it
+struct grouping_numpunct : std::numpunct<char>
+{
+    char do_thousands_sep() const override { return ','; }
+    std::string do_grouping() const override { return "\3"; }
+    char do_decimal_point() const override { return '.'; }
+};
+
 int main()
 {
+    if (const char *l = std::getenv("VERIF_LOCALE"))
+        if (std::string(l) == "group") std::locale::global(std::locale(std::locale::classic(), new grouping_numpunct));
     std::ios::sync_with_stdio(false);
     std::string line;
     while (std::getline(std::cin, line))
